@@ -117,6 +117,8 @@ func runC10(e *Env) {
 						}
 					}
 					_ = al
+				} else if a != ssa.Value(f.Params[0]) && derivedFromOnly(a, f.Params[1], 0) {
+					usesL = true // laddr itself or a normalised form computed from it on every path
 				}
 			}
 			e.R.Check(usesR && usesL, "C10.R3", "udp/server.getConnKey:both-addresses", e.fpos(f), "the key concatenates raddr.String() and the normalised laddr.String()", "the peer key does not depend on both the remote and the local address: distinct peers or local addresses would share a connection")
@@ -212,7 +214,22 @@ func runC10(e *Env) {
 		// dispatch by the response's own token
 		if f := e.fn("C10.R4", "udp/server.Server.getOrCreateConn"); f != nil {
 			ok := false
-			for _, g := range core.WithAnon(f) {
+			fns := core.WithAnon(f)
+			// a handler given as a method value (cfg.Handler = s.handleRequest) is the method itself
+			core.Instrs(f, func(in ssa.Instruction) {
+				if mk, isMk := in.(*ssa.MakeClosure); isMk {
+					if w, isF := mk.Fn.(*ssa.Function); isF && strings.HasPrefix(w.Synthetic, "bound method wrapper") {
+						core.InstrsOwn(w, func(x ssa.Instruction) {
+							if c, isC := x.(ssa.CallInstruction); isC {
+								if t := c.Common().StaticCallee(); t != nil && len(t.Blocks) > 0 {
+									fns = append(fns, t)
+								}
+							}
+						})
+					}
+				}
+			})
+			for _, g := range fns {
 				for _, c := range core.CallsNamed(g, "pkg/sync.Map.Load") {
 					if strings.HasSuffix(tableOf(c), ".multicastHandler") {
 						if m, is := isTokenHash(core.Arg(c, 1)); is {
@@ -586,4 +603,46 @@ func c10ClosedOnlyWhenClosed(e *Env) {
 		})
 		e.R.Check(bad == "", rule, q+":closed-only-when-closed", e.fpos(f), fmt.Sprintf("%d use(s) of the closed sentinel, each on the closed.Load() edge", n), bad)
 	}
+}
+
+// derivedFromOnly: on every path v is p or is computed from p (a copy, a field of it, a same-package helper applied to it).
+func derivedFromOnly(v ssa.Value, p *ssa.Parameter, d int) bool {
+	if d > 6 || v == nil {
+		return false
+	}
+	v = core.Unwrap(v)
+	switch x := v.(type) {
+	case *ssa.Parameter:
+		return x == p
+	case *ssa.Phi:
+		for _, ed := range x.Edges {
+			if !derivedFromOnly(ed, p, d+1) {
+				return false
+			}
+		}
+		return len(x.Edges) > 0
+	case *ssa.Call:
+		if g := x.Call.StaticCallee(); g != nil && g.Pkg == p.Parent().Pkg {
+			for _, a := range x.Call.Args {
+				if derivedFromOnly(a, p, d+1) {
+					return true
+				}
+			}
+		}
+		return false
+	case *ssa.UnOp:
+		return derivedFromOnly(x.X, p, d+1)
+	case *ssa.FieldAddr:
+		return derivedFromOnly(x.X, p, d+1)
+	case *ssa.Alloc:
+		n := 0
+		for _, st := range core.StoresToCell(x) {
+			n++
+			if !derivedFromOnly(st.Val, p, d+1) {
+				return false
+			}
+		}
+		return n > 0
+	}
+	return false
 }
